@@ -114,3 +114,38 @@ def nonminimal_int_mutants(data):
         body[i] |= 0x80
         body.insert(i + 1, 0x00)
         yield 'nonminimal-int', b'\x00' + bytes(body)
+
+
+LENGTHS = [127, 128, 129, 255, 256, 257, 1023, 1024, 4095, 4096, 16383, 16384, 65535, 65536, 65537, 70001]
+
+
+def large_shapes(rng, quick=True):
+    """Yield (label, tree): expressions on the far side of every size threshold the encoders have (one-byte and two-byte
+    lengths, 2**16 and above, hundreds of elements / arguments / annotations, deep nesting, very long integers)."""
+    lens = LENGTHS if not quick else [127, 128, 255, 256, 257, 4096, 65535, 65536, 70001]
+    for n in lens:
+        yield 'string-%d' % n, {'string': ''.join(rng.choice('abcXYZ 019') for _ in range(n))}
+        yield 'bytes-%d' % n, {'bytes': bytes(rng.getrandbits(8) for _ in range(n)).hex()}
+        yield 'annot-%d' % n, {'prim': 'Pair', 'args': [{'int': '1'}, {'int': '2'}], 'annots': ['%' + 'a' * (n - 1)]}
+    for n in ([9, 10, 11, 127, 128, 255, 256, 257, 1000] + ([] if quick else [4096, 32767, 32768, 33000])):
+        yield 'seq-%d' % n, [{'int': str(i % 64)} for i in range(n)]
+        yield 'seq-of-strings-%d' % n, [{'string': str(i)} for i in range(n)]
+        if n <= 1000:
+            yield 'args-%d' % n, {'prim': 'Pair', 'args': [{'int': str(i)} for i in range(n)]}
+            yield 'annots-%d' % n, {'prim': 'nat', 'annots': ['%' + 'f%d' % i for i in range(n)]}
+            yield 'elt-%d' % n, [{'prim': 'Elt', 'args': [{'int': str(i)}, {'string': 'v%d' % i}]} for i in range(n)]
+    for d in (9, 10, 11, 31, 32, 33, 64, 100, 150):
+        e = {'int': '7'}
+        f = {'prim': 'unit'}
+        g = {'string': 'x'}
+        for k in range(d):
+            e = {'prim': 'Pair', 'args': [{'int': str(k)}, e]}
+            f = {'prim': 'option', 'args': [f]} if k % 2 else {'prim': 'list', 'args': [f], 'annots': [':l%d' % k]}
+            g = [g] if k % 3 else {'prim': 'Some', 'args': [g]}
+        yield 'deep-pair-%d' % d, e
+        yield 'deep-type-%d' % d, f
+        yield 'deep-seq-%d' % d, g
+    # (Python refuses int <-> str beyond 4300 digits by default, so integers stop short of 14000 bits)
+    for bits in (2 ** 13, 2 ** 13 + 7, 13900):
+        for v in (2 ** bits - 1, 2 ** bits, -(2 ** bits), -(2 ** bits) - 1):
+            yield 'int-%dbits' % bits, {'int': str(v)}
